@@ -216,6 +216,42 @@ def rule_wrapper(ctx):
     # body not called before the lookup: every delegating call is after get_permissions on the path (by construction of tests above)
 
 
+def rule_atomic(ctx):
+    p = ctx.p
+    ctx.rule("C04.ATOMIC", "nothing can run between the permission decision and the handler's own resolution of the same argument: commands of one session run as concurrent "
+                           "tasks (a pipelined CWD changes what a relative argument means), so no awaiting decorator sits between PathPermissions "
+                           "and the handler (C04.SAME decides the handler's own body)")
+    n = 0
+    for verb, name, fn in p.handlers():
+        ds = p.decorators(fn)
+        names = [d.name for d in ds]
+        if "PathPermissions" not in names:
+            continue
+        n += 1
+        inner = ds[names.index("PathPermissions") + 1:]
+        awaiting = []
+        for d in inner:
+            try:
+                w = p.wrapper_of(d.name)
+            except AnalysisError:
+                w = None
+            if w is None:
+                awaiting.append(d.name)      # unknown decorator: cannot show it does not suspend
+                continue
+            wrapped = None
+            for a in walk_no_nested(w):
+                if isinstance(a, ast.Await):
+                    v = a.value
+                    is_f = isinstance(v, ast.Call) and isinstance(v.func, ast.Name) and v.func.id in ("f", wrapped)
+                    if not is_f and may_suspend_await(p, a, w):
+                        awaiting.append(d.name)
+                        break
+        ctx.ob("C04.ATOMIC", fn, f"{name}: no awaiting decorator between the permission check and the handler", not awaiting,
+               f"{name}: {sorted(set(awaiting))} run(s) between PathPermissions and the handler and can suspend: a pipelined CWD executed meanwhile makes the handler "
+               "resolve the same relative argument to another path than the one whose permission was checked", construct=f"{name}:awaiting decorator inside PathPermissions")
+    ctx.floor("C04.ATOMIC", 10, "permission-guarded handlers")
+
+
 def rule_near(ctx):
     p = ctx.p
     ctx.rule("C04.NEAR", "User.get_permissions selects the nearest ancestor entry (min over relative length / max over own depth among is_parent entries), default permissive")
@@ -415,4 +451,4 @@ def rule_table_container(ctx):
            f"Permission defines {special}: an entry that denies everything can be falsy (and vanish in a filter) or compare equal to another", construct=f"table:Permission {special}")
 
 
-RULES = [rule_kind, rule_wrapper, rule_near, rule_same, rule_alias, rule_table_container]
+RULES = [rule_kind, rule_wrapper, rule_near, rule_same, rule_atomic, rule_alias, rule_table_container]
